@@ -948,6 +948,33 @@ impl Program {
                 c.aligned = None;
                 *removed += 1;
             }
+            // known finding (C03): the allocation unit of a union's bit-fields is sized by the
+            // last field of a run and emptied by a zero-width member: widest last, no `:0`
+            if c.is_union {
+                let n0 = c.fields.len();
+                c.fields.retain(|f| f.bits != Some(0));
+                *removed += n0 - c.fields.len();
+                let mut k = 0usize;
+                while k < c.fields.len() {
+                    if c.fields[k].bits.is_none() {
+                        k += 1;
+                        continue;
+                    }
+                    let start = k;
+                    while k < c.fields.len() && c.fields[k].bits.is_some() {
+                        k += 1;
+                    }
+                    let last = k - 1;
+                    let widest = (start..=last).max_by_key(|i| (c.fields[*i].bits.unwrap(), *i)).unwrap();
+                    if c.fields[widest].bits != c.fields[last].bits {
+                        c.fields.swap(widest, last);
+                        *removed += 1;
+                    }
+                }
+                if c.fields.is_empty() {
+                    c.fields.push(Field { name: "only".into(), ty: FieldTy::Ty(Ty::Prim(Prim::Int)), bits: None, align: None });
+                }
+            }
             for f in c.fields.iter_mut() {
                 if packed_here && f.align.is_some() {
                     f.align = None;
